@@ -29,7 +29,28 @@ theorem single_pass (inp : Bytes) (env : Env) (m : Mode) :
   unfold replace segments
   split
   · rfl
-  · exact loop_eq_render inp env m (inp.length + 1) 0 0 0 []
+  · exact loop_eq_render inp env m (inp.length + 1) 0 0 0 0 [] (CacheOK.init inp)
+
+/-- **the remembered closing brace (`lastEnd`) changes nothing.** `replace` — which looks for a closing
+    brace only when the one found for an earlier opener is not ahead of the cursor any more — returns, for
+    every input, binding and mode, what the loop that searches at every opener returns. (The reason:
+    `findClose_at_iff`/`findClose_mono` — the brace found from `i` is the first not-skipped one behind `i`,
+    hence also the one found from every index between `i` and it.) -/
+theorem close_cache_is_transparent (inp : Bytes) (env : Env) (m : Mode) :
+    replace inp env m = replaceNC inp env m := by
+  unfold replace replaceNC
+  split
+  · rfl
+  · exact loop_eq_loopNC inp env m (inp.length + 1) 0 0 0 0 [] (CacheOK.init inp)
+
+-- non-vacuity: "{{\}a}" in ReplaceKnown — the cached brace (index 5, behind an escaped one) is reused
+-- by the second opener; both loops keep the text and drop the backslash
+example : replace [123, 123, 92, 125, 97, 125] (fun _ => none) ⟨[], false, false, false, none⟩
+      = .ok [123, 123, 125, 97, 125] ∧
+    replaceNC [123, 123, 92, 125, 97, 125] (fun _ => none) ⟨[], false, false, false, none⟩
+      = .ok [123, 123, 125, 97, 125] ∧
+    closeAt [123, 123, 92, 125, 97, 125] 1 5 = .at 5 ∧ findClose [123, 123, 92, 125, 97, 125] 1 = .at 5 := by
+  decide
 
 /-- **values cannot create structure.** Two bindings that define the same keys cut the
     input identically, whatever their values contain (`{env.HOME}`, `{file.…}`, braces…). -/
@@ -107,45 +128,57 @@ theorem outside_preserved_mod_escape (inp : Bytes) (known : Bytes → Bool) (ue 
 example : segments [92, 123, 97, 125, 123, 98, 125] (dom exEnv0) false false
     = [.lit [], .lit [123, 97, 125], .ph [98], .lit []] := by decide
 
-/-- **cost, the part that holds.** In every mode that does not keep unknown placeholders
-    (`ReplaceAll`, `ReplaceFunc`, `ReplaceOrErr(_, true)`) the scanner visits at most
-    `104·len + 204` input bytes — for every input and every binding. -/
-theorem cost_linear (inp : Bytes) (env : Env) (m : Mode)
-    (hm : m.unknownEmpty = true ∨ m.errUnknown = true) :
+/-- **cost.** In EVERY mode the scanner visits at most `104·len + 204` input bytes — for every input and
+    every binding: loop iterations plus the bytes `strings.Index` walks over while looking for closing
+    braces. (Successful searches walk over disjoint stretches of the input because the brace they find is
+    remembered until the cursor has passed it; unsuccessful ones are cut off by the unclosed-placeholder
+    guard.) -/
+theorem cost_linear (inp : Bytes) (env : Env) (m : Mode) :
     cost inp env m ≤ 104 * inp.length + 204 := by
   unfold cost
   split
   · omega
-  · have := costLoop_le inp env m hm (inp.length + 1) 0 0 (Nat.zero_le _) (by omega)
+  · have := costLoop_le inp env m (inp.length + 1) 0 0 0 (by omega)
     unfold bound at this
+    have e1 : (101 - 0) * (inp.length + 2) = 101 * inp.length + 202 := by omega
+    rw [e1] at this
     omega
 
 /-- **the cost twin is the loop's own count.** The instrumented loop `loopC` returns `loop`'s result and,
     next to it, the number of input bytes visited; that number is `costLoop` (on every run: `loop` never
     panics). So `cost_linear` bounds the work of the modelled loop itself. -/
-theorem cost_twin_follows_loop (inp : Bytes) (env : Env) (m : Mode) (fuel i lwc uc : Nat) (sb : Bytes) :
-    (loopC inp env m fuel i lwc uc sb).1 = loop inp env m fuel i lwc uc sb ∧
-    (loop inp env m fuel i lwc uc sb ≠ .panic →
-      (loopC inp env m fuel i lwc uc sb).2 = costLoop inp env m fuel i uc) :=
-  ⟨loopC_fst inp env m fuel i lwc uc sb,
-   fun h => loopC_snd inp env m fuel i lwc uc sb (by rw [loopC_fst]; exact h)⟩
+theorem cost_twin_follows_loop (inp : Bytes) (env : Env) (m : Mode) (fuel i lwc uc ce : Nat) (sb : Bytes) :
+    (loopC inp env m fuel i lwc uc ce sb).1 = loop inp env m fuel i lwc uc ce sb ∧
+    (loop inp env m fuel i lwc uc ce sb ≠ .panic →
+      (loopC inp env m fuel i lwc uc ce sb).2 = costLoop inp env m fuel i uc ce) :=
+  ⟨loopC_fst inp env m fuel i lwc uc ce sb,
+   fun h => loopC_snd inp env m fuel i lwc uc ce sb (by rw [loopC_fst]; exact h)⟩
 
-/-
-FULL STATEMENT (property clause "terminates in time proportional to the input"), which the
-unchanged tree does NOT satisfy in the keep-unknown modes:
-   ∀ inp env m, cost inp env m ≤ 104 * inp.length + 204
--/
+/-- … and `costLoopNC` is in the same way the count of the loop before the close cache -/
+theorem old_cost_twin_follows_old_loop (inp : Bytes) (env : Env) (m : Mode) (fuel i lwc uc : Nat) (sb : Bytes) :
+    (loopCNC inp env m fuel i lwc uc sb).1 = loopNC inp env m fuel i lwc uc sb ∧
+    (loopNC inp env m fuel i lwc uc sb ≠ .panic →
+      (loopCNC inp env m fuel i lwc uc sb).2 = costLoopNC inp env m fuel i uc) :=
+  ⟨loopCNC_fst inp env m fuel i lwc uc sb,
+   fun h => loopCNC_snd inp env m fuel i lwc uc sb (by rw [loopCNC_fst]; exact h)⟩
+
 /-- `'{'^n ++ "}"` -/
 def nest (n : Nat) : Bytes := List.replicate n phOpen ++ [phClose]
 
-/-- **cost, the part that fails** (finding F14): `ReplaceKnown` on 250 nested openers already
-    exceeds the linear bound that holds for the other modes (31 876 visits; it is `≈ n²/2`). -/
-theorem cost_linear_all_modes_full_fails :
-    ∃ (inp : Bytes) (env : Env) (m : Mode), ¬ cost inp env m ≤ 104 * inp.length + 204 :=
+/-- **the statement is not vacuous: the code as it was before the close cache violates it** (finding F14,
+    repaired): `ReplaceKnown` on 250 nested openers already exceeded the bound (31 876 visits; `≈ n²/2`,
+    every opener walked to the one closing brace again). -/
+theorem cost_linear_old_code_fails :
+    ∃ (inp : Bytes) (env : Env) (m : Mode), ¬ costNC inp env m ≤ 104 * inp.length + 204 :=
   ⟨nest 250, fun _ => none, ⟨[], false, false, false, none⟩, by
     set_option maxRecDepth 100000 in decide⟩
 
--- the same input is cheap in `ReplaceAll` (non-vacuity of `cost_linear`: 252 visits)
+-- the same input in the same mode now: one search (251 bytes + 1), 250 further iterations = 502 visits
+example : cost (nest 250) (fun _ => none) ⟨[], false, false, false, none⟩ = 502 ∧
+    costNC (nest 250) (fun _ => none) ⟨[], false, false, false, none⟩ = 31876 := by
+  set_option maxRecDepth 100000 in decide
+
+-- … and in `ReplaceAll` (252 visits)
 example : cost (nest 250) (fun _ => none) ⟨[], true, false, false, none⟩ = 252 := by
   set_option maxRecDepth 100000 in decide
 
